@@ -39,12 +39,14 @@ def plan(tier):
         for i in range(0, 30, 10):
             items.append({'biort': b, 'qshift': q, 'h': h, 'w': w, 'J': 2, 'layouts': lay[i:i + 10], 'masks': 'none', 'subsets': False})
         items.append({'biort': b, 'qshift': q, 'h': h, 'w': w, 'J': 1 + pi % 3, 'layouts': [[2, -1]], 'masks': 'all', 'subsets': False})
+        # two channels (per-channel filter stacking in the backward passes), with all grad subsets
+        items.append({'biort': b, 'qshift': q, 'h': [4, 5, 6, 3][pi % 4], 'w': [6, 5, 4, 4][pi % 4], 'J': 1 + pi % 2, 'layouts': [[2, -1]], 'masks': 'none', 'subsets': True, 'C': 2})
     return items
 
 
 def required_regimes(tier):
     return {'l1:odd_rows', 'l1:odd_cols', 'l2+:pad_both', 'l2+:pad_rows_only', 'l2+:pad_cols_only', 'l2+:pad_none', 'layout:nondefault',
-            'skip:some', 'include:some', 'subset:lowpass_only', 'subset:highs_only', 'subset:finest_only'}
+            'skip:some', 'include:some', 'subset:lowpass_only', 'subset:highs_only', 'subset:finest_only', 'channels:2'}
 
 
 def run(item):
@@ -53,7 +55,8 @@ def run(item):
     from pytorch_wavelets import DTCWTForward, DTCWTInverse
     res = Res()
     b, q, H, W, J = item['biort'], item['qshift'], item['h'], item['w'], item['J']
-    P = H * W
+    C = int(item.get('C', 1))
+    P = H * W * C
     ptags = [t for st in dtc.path(H, W, J) for t in st[4]]
     if item['masks'] == 'all':
         ms = list(itertools.product([False, True], repeat=J))
@@ -65,8 +68,8 @@ def run(item):
     for (o, r) in item['layouts']:
         for skip, inc in combos:
             cfg = {'biort': b, 'qshift': q, 'h': H, 'w': W, 'J': J, 'o_dim': o, 'ri_dim': r, 'skip_hps': [bool(x) for x in skip],
-                   'include_scale': [bool(x) for x in inc]}
-            tags = list(ptags)
+                   'include_scale': [bool(x) for x in inc], 'C': C}
+            tags = list(ptags) + (['channels:2'] if C == 2 else [])
             if (o % 6, r % 6) != (2, 5):
                 tags.append('layout:nondefault')
             if any(skip):
@@ -82,7 +85,7 @@ def run(item):
                 yh = [t if t.dim() < 6 else torch.movedim(t, npos, 0) for t in yh]   # batch first for the extractor
                 return (list(yl) if isinstance(yl, (list, tuple)) else [yl]) + yh
 
-            x0 = torch.zeros((1, 1, H, W))
+            x0 = torch.zeros((1, C, H, W))
             res.state(b, q, H, W, J, o, r, skip, inc)
             try:
                 A, bshapes = jac.forward_matrix(f, [x0])
